@@ -70,8 +70,9 @@ def worker_init():
     global _DIR
     ctxsim.warm_up()
     sys.dont_write_bytecode = True
-    _DIR = tempfile.mkdtemp(prefix="jtv_c12_")
-    atexit.register(shutil.rmtree, _DIR, True)
+    from ..core import scratch_dir
+
+    _DIR = scratch_dir("jtv_c12_")
     for name in ("c12mod_a", "c12mod_b"):
         with open(os.path.join(_DIR, name + ".py"), "w") as f:
             f.write("import sim.seams as _S\n_S.hit('module.body')\n\ndef f(x: int) -> int:\n    return x\n")
